@@ -179,7 +179,7 @@ class Dds:
 
 def call_pa(dds, it, st, meth, pa, args, total, index):
     cell = st.new_cell(pa)
-    st2 = it.start(PAF + meth, [RefV(cell, (), True)] + args, genv=dds.genv(total, index), state=st)
+    st2 = it.start(PAF + meth, [receiver_arg(it, PAF + meth, cell, pa)] + args, genv=dds.genv(total, index), state=st)
     return it.run(st2), cell
 
 
